@@ -190,6 +190,9 @@ func (lig *MorxSubtableLigature) parseComponents(src []byte, _ int) error {
 	if L := len(src); L < int(lig.componentOffset) {
 		return fmt.Errorf("EOF: expected length: %d, got %d", lig.componentOffset, L)
 	}
+	if L := len(src); L < int(lig.ligatureOffset) { // the components end where the ligatures start
+		return fmt.Errorf("EOF: expected length: %d, got %d", lig.ligatureOffset, L)
+	}
 	src = src[lig.componentOffset:]
 	componentCount := (lig.ligatureOffset - lig.componentOffset) / 2
 	lig.Components = make([]uint16, componentCount)
